@@ -61,6 +61,8 @@ def start_point(rng, ll, where):
 
 
 def gen_base(rng, fam):
+    if fam == 'near':
+        return near_case(rng)
     if fam == 'dtype':
         return dtype_case(rng)
     if fam == 'pole-exact':
@@ -342,8 +344,10 @@ def lattice_loop(rng):
     w, h = rng.randint(3, 14), rng.randint(3, 14)
     ring = [(x, 0) for x in range(w)] + [(w - 1, y) for y in range(1, h)] + [(x, h - 1) for x in range(w - 2, -1, -1)] + \
            [(0, y) for y in range(h - 2, 0, -1)]
-    shape = rng.choice(['ring', 'U', 'C'])
-    if shape == 'U':
+    shape = rng.choice(['ring', 'U', 'C', 'n'])
+    if shape == 'n':
+        ring = [p for p in ring if not (p[1] == 0 and 0 < p[0] < w - 1)]
+    elif shape == 'U':
         ring = [p for p in ring if not (p[1] == h - 1 and 0 < p[0] < w - 1)]
     elif shape == 'C':
         ring = [p for p in ring if not (p[0] == w - 1 and 0 < p[1] < h - 1)]
@@ -356,6 +360,94 @@ def lattice_loop(rng):
     rng.shuffle(pts)
     return {'fam': 'lattice-loop', 'ra': [p[0] for p in pts], 'dec': [p[1] for p in pts], 'linklength': ll,
             'chunksize': rng.choice([cs, cs, None])}
+
+
+def multi_field(rng):
+    """a Lambda / n / ring / U shaped component whose arms are first met as separate groups spanning several chunks and are
+    joined in a later chunk, TOGETHER WITH several unrelated small groups scattered between and around the arms, so that the
+    provisional numbers of real groups interleave with numbers that are merged away"""
+    ll = rng.choice([0.25, 0.25, 0.1, 0.5])
+    cs = 4 * ll
+    s = ll * rng.uniform(0.75, 0.95)
+    w, h = rng.randint(5, 15), rng.randint(6, 16)
+    shape = rng.choice(['n', 'lambda', 'ring', 'U', 'lambda', 'n'])
+    if shape == 'lambda':
+        apex = (w // 2, h - 1)
+        occ = []
+        for side in (0, w - 1):
+            x, y = side, 0
+            while (x, y) != apex:
+                occ.append((x, y))
+                if y < apex[1] and (abs(x - apex[0]) * (apex[1]) <= abs(side - apex[0]) * (apex[1] - y) or x == apex[0]):
+                    y += 1
+                else:
+                    x += 1 if x < apex[0] else -1
+        occ.append(apex)
+        if w - 1 - 0 < 3:
+            return None
+    else:
+        occ = [(x, 0) for x in range(w)] + [(w - 1, y) for y in range(1, h)] + [(x, h - 1) for x in range(w - 2, -1, -1)] + \
+              [(0, y) for y in range(h - 2, 0, -1)]
+        if shape == 'n':
+            occ = [p for p in occ if not (p[1] == 0 and 0 < p[0] < w - 1)]
+        elif shape == 'U':
+            occ = [p for p in occ if not (p[1] == h - 1 and 0 < p[0] < w - 1)]
+    occ = list(dict.fromkeys(occ))[:48]
+    occset = set(occ)
+
+    def free(p):
+        return all((p[0] + dx, p[1] + dy) not in occset for dx in (-1, 0, 1) for dy in (-1, 0, 1))
+    others = []
+    for _ in range(rng.randint(2, 8)):
+        for _t in range(30):
+            p = (rng.randint(-4, w + 3), rng.randint(-4, h + 3))
+            if free(p):
+                grp = [p]
+                if rng.random() < 0.5:
+                    q = (p[0] + rng.choice([1, 0]), p[1] + 1)
+                    if free(q) and q != p:
+                        grp.append(q)
+                for g in grp:
+                    occset.add(g)
+                others += grp
+                break
+    allp = occ + others
+    if len(allp) > 62:
+        allp = allp[:62]
+    ra0 = rng.uniform(20, 340)
+    dec0 = rng.uniform(-40, 40)
+    ox, oy = rng.uniform(0, cs), rng.uniform(0, cs)
+    c = math.cos(dec0 * D2R)
+    pts = [(G.norm_ra(ra0 + (p[0] * s + ox) / c), dec0 + p[1] * s + oy) for p in allp]
+    rng.shuffle(pts)
+    return {'fam': 'multi-field', 'ra': [p[0] for p in pts], 'dec': [p[1] for p in pts], 'linklength': ll,
+            'chunksize': rng.choice([cs, cs, None])}
+
+
+NEAR_DELTAS = [1e-3, 1e-5, 1e-7, 1e-9]
+
+
+def near_case(rng):
+    """chains whose consecutive separations are linklength (1 + d), d = +-1e-3 ... +-1e-9, for linking lengths from
+    milli-arcseconds to degrees (positions at small RA / Dec so that the doubles resolve the differences), with exact
+    duplicates; which pairs are linked is decided by the implementation's own gcirc comparison on these doubles"""
+    ll = rng.choice([1.0 / 3.6e6, 5.0 / 3.6e6, 1.0 / 3600.0, 1.0 / 60.0, 0.3, 2.0])
+    pts = []
+    for _ in range(rng.randint(1, 3)):
+        p = (rng.uniform(0.1, 1.5), rng.uniform(-0.8, 0.8))
+        pts.append(p)
+        for _k in range(rng.randint(2, 6)):
+            d = rng.choice([-1.0, 1.0]) * rng.choice(NEAR_DELTAS)
+            if rng.random() < 0.6:
+                p = (p[0], p[1] + ll * (1.0 + d))
+            else:
+                p = (p[0] + ll * (1.0 + d) / math.cos(p[1] * D2R), p[1])
+            pts.append(p)
+    if rng.random() < 0.5:
+        pts.append(pts[rng.randrange(len(pts))])
+    rng.shuffle(pts)
+    return {'fam': 'near', 'ra': [G.norm_ra(p[0]) for p in pts], 'dec': [p[1] for p in pts], 'linklength': ll,
+            'chunksize': rng.choice([None, None, max(4 * ll, 0.05), 0.5])}
 
 
 def history_cases(rng):
@@ -479,7 +571,7 @@ def run_synthetic(cases):
     return results
 
 
-FAMILIES = ['chain-ra', 'chain-dec', 'chain-diag', 'seam', 'pole', 'joined', 'clusters', 'highdec', 'polebound', 'dtype', 'pole-exact']
+FAMILIES = ['chain-ra', 'chain-dec', 'chain-diag', 'seam', 'pole', 'joined', 'clusters', 'highdec', 'polebound', 'dtype', 'pole-exact', 'near']
 
 HEADER = '''From Coq Require Import ZArith List. Import ListNotations.
 From PV Require Import C05.Model C05.Algo. Open Scope Z_scope.'''
@@ -654,8 +746,10 @@ def correspond(ctx, proof_ok=True):
     # suspicious case and a fixed-size sample go through the full recorded run and the Coq evaluation below
     sky = [lattice_tree(rng) for _ in range(ctx.n(6000, 200000))]
     n_tree = len(sky)
-    sky += [lattice_loop(rng) for _ in range(ctx.n(1000, 30000))]
+    sky += [lattice_loop(rng) for _ in range(ctx.n(600, 30000))]
     n_loop = len(sky) - n_tree
+    sky += [c for c in (multi_field(rng) for _ in range(ctx.n(800, 60000))) if c is not None]
+    n_multi = len(sky) - n_tree - n_loop
     for _ in range(ctx.n(40, 1500)):          # 40 sweeps of 49 placements
         sky += corner_lattice(rng)
     sky = [c for c in sky if admissible(c)]
@@ -681,7 +775,7 @@ def correspond(ctx, proof_ok=True):
     ctx.coverage['screened'] = {
         'rule': 'screening = real spheregroup call compared (uncertified, in the implementation process) with a brute-force labelling; '
                 'suspicious cases and a sample are then evaluated like every other case (recorded internals, Coq)',
-        'lattice_tree_cases': n_tree, 'lattice_loop_cases': n_loop, 'corner_lattice_cases': len(sky) - n_tree - n_loop,
+        'lattice_tree_cases': n_tree, 'lattice_loop_cases': n_loop, 'multi_field_cases': n_multi, 'corner_lattice_cases': len(sky) - n_tree - n_loop - n_multi,
         'sky_suspicious_by_family': {f: len(ks) for f, ks in by_fam.items()},
         'synthetic_driver_applicable': not SYN_INAPPLICABLE[0],
         'synthetic_cell_cases': len(syn), 'synthetic_suspicious': len(syn_sus),
@@ -710,7 +804,7 @@ def correspond(ctx, proof_ok=True):
                           {'kind': 'failing-input', 'call': c, 'impl_result': {k: v for k, v in r.items() if k not in ('adj', 'rec')},
                            'meaning': 'the property promises a grouping for every list of two or more positions; the call raised instead'}, True)
             continue
-        if r['nearest_threshold_rel'] is not None and r['nearest_threshold_rel'] <= (1e-4 if c.get('dtype') else 1e-9):
+        if c['fam'] != 'near' and r['nearest_threshold_rel'] is not None and r['nearest_threshold_rel'] <= (1e-4 if c.get('dtype') else 1e-9):
             skipped += 1
             continue
         terms.append(case_term(c, r))
